@@ -66,6 +66,8 @@ def gen_consts():
         raise BrokenTie("translator gen_synccell.py refused the current source (util/sync_cell.rs, time/monotonic_time.rs)", out2)
     # T3 never fails: on an untranslatable source it writes a PoolProg.v that breaks the obligations of C04/C06 only
     sh([sys.executable, os.path.join(VERIF, "tools", "gen_pool.py"), os.path.join(COQ, "gen", "PoolProg.v")])
+    # T4 likewise: an untranslatable channel.rs breaks the obligations of C03 (and of C04, which imports them)
+    sh([sys.executable, os.path.join(VERIF, "tools", "gen_chan.py"), os.path.join(COQ, "gen", "ChanProg.v")])
     return out
 
 
